@@ -159,6 +159,8 @@ p["units"] += [
     K("h_tdigest::td_clear_clone", "quick", "clear() on a digest with compressed centroids AND a backlog: parts, aggregates and is_empty as in a fresh digest ('since creation or clear')", mem_class_gb=8, timeout_s=2400),
     K("h_tdigest::td_insert_any_weight_c0", "quick", "insert_weighted with ANY finite weight >= 0 into the empty digest: positive weights are recorded exactly, min/max updated, not empty", "w any f64"),
     K("h_tdigest::td_insert_any_weight_c1", "quick", "same into a one-centroid digest", "w any f64"),
+    K("h_tdigest::td_insert_any_value_w3", "quick", "insert_weighted(x, 3) with ANY finite x (|x| < 1e300) into the empty digest: min() == max() == x exactly (extremes are the inserted values, not values recomputed from sum/count)", "x any f64, w = 3",
+      must_cover=["tiny_value", "non_integer_value"]),
     K("h_tdigest::td_insert_step_c2b1", "quick", "insert_weighted, 2 centroids + 1 backlog"),
     K("h_tdigest::td_insert_step_c1b2", "quick", "insert_weighted, 1 centroid + 2 backlog"),
     K("h_tdigest::td_merge_step_c1b1_fuse", "thorough", "merge step 1+1 read-triggered, delta=1.1: totals preserved, sorted, backlog emptied", mem_class_gb=40, timeout_s=3600, mem_gb=50),
